@@ -33,7 +33,7 @@ type mutantResult struct {
 }
 
 type mutantReport struct {
-	Results                  []mutantResult
+	Results                 []mutantResult
 	Killed, Skipped, Missed int
 }
 
@@ -176,7 +176,7 @@ func loadExtraMutants(p *Prop) {
 	}
 	var list []struct {
 		Name, File, Old, New, Desc string
-		Equivalent               bool
+		Equivalent                 bool
 	}
 	if json.Unmarshal(bs, &list) != nil {
 		fmt.Printf("UNDECIDED property=%s reason=mutants_extra/%s.json does not parse\n", p.ID, p.ID)
